@@ -87,7 +87,7 @@ for variant, cls in (('inverse', 'KFACInverseLayer'), ('eigen', 'KFACEigenLayer'
     KEPT_F = ('factors_kept_off_schedule', f'implies(not {FAC_STEP}, all(' + factors_identity_kept(L_) + ' for m in self._layers))')
     contract(
         f'{P}.step#{variant}', props=['C05', 'C03', 'C10', 'C13', 'C07', 'C01'],
-        class_map={'KFACBaseLayer': cls},
+        class_map={'KFACBaseLayer': cls}, theories=['opaque_nonlinear'],
         requires=SELF_OK + [('layers_configured', CONFIG_OK)] + MUTS,
         may_raise=['RuntimeError', 'AssertionError', 'NonSquareTensorError'],
         lets={'D0': 'old(self.damping)'},       # the damping evaluated at the step count on entry
@@ -129,7 +129,7 @@ for variant, cls in (('inverse', 'KFACInverseLayer'), ('eigen', 'KFACEigenLayer'
 for variant, cls in (('inverse', 'KFACInverseLayer'), ('eigen', 'KFACEigenLayer')):
     CONFIG_OK = 'all(layer_config_ok(self._layers[m][1]) and wa_layer_ok(self._assignment, self._layers[m][0]) for m in self._layers)'
     contract(
-        f'{P}.reset_batch#{variant}', props=['C04', 'C05'], class_map={'KFACBaseLayer': cls},
+        f'{P}.reset_batch#{variant}', props=['C04', 'C05'], class_map={'KFACBaseLayer': cls}, theories=['opaque_nonlinear'],
         requires=[('layers_present', 'all(self._layers[m][1] is not None for m in self._layers)')],
         ensures=[('all_buffers_cleared', 'all(self._layers[m][1]._a_batch is None and self._layers[m][1]._g_batch is None and '
                                          'self._layers[m][1]._a_count == 0 and self._layers[m][1]._g_count == 0 for m in self._layers)'),
@@ -152,7 +152,7 @@ for variant, cls in (('inverse', 'KFACInverseLayer'), ('eigen', 'KFACEigenLayer'
                      f'and {HOOK_LAYER}._{X}_factor is old({HOOK_LAYER}._{X}_factor) and trace() == old(trace()) '
                      f'and self._mini_steps == old(self._mini_steps)')
         contract(
-            f'{P}.{hook}#{variant}', props=['C04', 'C05', 'C10', 'C03'], class_map={'KFACBaseLayer': cls},
+            f'{P}.{hook}#{variant}', props=['C04', 'C05', 'C10', 'C03'], class_map={'KFACBaseLayer': cls}, theories=['opaque_nonlinear'],
             params=params, result=None,
             requires=[('registered_module', 'module is not None and module in self._layers'),
                       ('layer_configured', f'layer_config_ok({HOOK_LAYER}) and wa_layer_ok(self._assignment, {HOOK_NAME})'),
@@ -197,7 +197,7 @@ for variant, cls in (('inverse', 'KFACInverseLayer'), ('eigen', 'KFACEigenLayer'
               + MUT_VARIANT[variant]]
     LINV = SHAPES
     contract(
-        f'{P}.load_state_dict#{variant}', props=['C09', 'C03', 'C05', 'C01'], class_map={'KFACBaseLayer': cls},
+        f'{P}.load_state_dict#{variant}', props=['C09', 'C03', 'C05', 'C01'], class_map={'KFACBaseLayer': cls}, theories=['opaque_nonlinear'],
         params={'state_dict': STATE, 'compute_inverses': KBool},
         requires=[('valid_state', "'steps' in state_dict and state_dict['steps'] >= 0"),
                   ('hyperparameters_in_state_are_numbers',
@@ -233,4 +233,37 @@ for variant, cls in (('inverse', 'KFACInverseLayer'), ('eigen', 'KFACEigenLayer'
         modifies=['self._steps'] + [f'self._{h}' for h in HYP] + ['*._a_factor', '*._g_factor', '*._a_inv', '*._g_inv', '*._qa', '*._qg', '*._da',
                                                                    '*._dg', '*._dgda', '*.val', '*.resolved', 'ghost:trace', 'ghost:next_sid',
                                                                    '*.gh_a_from', '*.gh_g_from', '*.gh_a_damping', '*.gh_g_damping'],
+    )
+
+
+# ------------------------------------------------------------------ state_dict (C09: the save side)
+LSTATE = KDict(KStr, KRef('Tensor'))
+for variant, cls in (('inverse', 'KFACInverseLayer'), ('eigen', 'KFACEigenLayer')):
+    SAVED = ("fname(self, m) in __comp0 and __comp0[fname(self, m)]['A'] is old(awaited(flayer(self, m)._a_factor)) "
+             "and __comp0[fname(self, m)]['G'] is old(awaited(flayer(self, m)._g_factor))")
+    contract(
+        f'{P}.state_dict#{variant}', props=['C09', 'C03', 'C05'], class_map={'KFACBaseLayer': cls}, theories=['opaque_nonlinear'],
+        params={'include_factors': KBool}, result=STATE, locals={'state_dict': STATE, '__comp0': KDict(KStr, LSTATE)},
+        requires=[('layers_present', 'all(self._layers[m][1] is not None for m in self._layers)'),
+                  ('layer_names_unique', 'all(fname(self, a) != fname(self, b) for a in range(len(self._layers)) for b in range(a))')],
+        ensures=[
+            ('step_count_saved', "'steps' in result and result['steps'] == self._steps"),
+        ] + [(f'{h}_saved_unless_a_schedule', f"('{h}' in result) == (not callable(self._{h})) and "
+                                              f"implies('{h}' in result, same(result['{h}'], self._{h}))") for h in HYP] + [
+            ('factors_saved_iff_requested', "('layers' in result) == include_factors"),
+            ('every_layer_saved_under_its_name',
+             "implies(include_factors, len(result['layers']) == len(self._layers) and all("
+             "fname(self, m) in result['layers'] and result['layers'][fname(self, m)]['A'] is old(awaited(flayer(self, m)._a_factor)) "
+             "and result['layers'][fname(self, m)]['G'] is old(awaited(flayer(self, m)._g_factor)) for m in range(len(self._layers))))"),
+            ('saving_does_not_communicate', 'trace() == old(trace())'),
+            ('scalars_untouched', 'self._steps == old(self._steps) and self._layers == old(self._layers)'),
+        ],
+        loops={'iter:self._layers.values()': dict(index='i', invariants=[
+            ('one_entry_per_layer_so_far', 'len(__comp0) == i and all(key_at(__comp0, m) == fname(self, m) for m in range(i))'),
+            ('saved_so_far', 'all(' + SAVED + ' for m in range(i))'),
+            ('factors_of_the_rest_untouched', 'all(awaited(flayer(self, m)._a_factor) is old(awaited(flayer(self, m)._a_factor)) and '
+                                              'awaited(flayer(self, m)._g_factor) is old(awaited(flayer(self, m)._g_factor)) '
+                                              'for m in range(len(self._layers)))'),
+        ])},
+        modifies=['*._a_factor', '*._g_factor', '*.resolved'],
     )
